@@ -37,6 +37,10 @@ type Config struct {
 	// supervisor behaviour per role ("runtime", "ext:<basename>")
 	LaunchError      map[string][]int `json:"launchError,omitempty"`      // launch indices whose Exec fails
 	ExitEventDelayMs map[string]int   `json:"exitEventDelayMs,omitempty"` // delay between death and delivery of the exit event
+	// ExecReturnLagMs: the supervisor's Exec of this role returns that long after the process has started running (a
+	// supervisor reached over a socket, or the orchestrator's goroutine being preempted at that point): a process that
+	// exits at once is then reported dead before Exec has returned
+	ExecReturnLagMs map[string]int `json:"execReturnLagMs,omitempty"`
 	HostileAPIEnv    bool             `json:"hostileApiEnv,omitempty"`    // C16: put a wrong AWS_LAMBDA_RUNTIME_API into the container environment
 }
 
